@@ -37,6 +37,7 @@ def lit(s):
 
 bump_shape = [0]
 bump_macro = [0]
+ALPH = ["abcdxyz"]       # literal characters of generated names; with digits in 30 % of the trees
 def gen_level_tables(rng, depth, dirty):
     """tables[lv] = list of ports (dicts with an extra 'kind'); every sub-tree
     port of level lv has sub = tables[lv+1]"""
@@ -49,7 +50,7 @@ def gen_level_tables(rng, depth, dirty):
             # strict names (toggles, sub-trees) are never equal to another base name: the
             # runtime oracle and 'enabled by' address ports by name
             for _ in range(80):
-                s = "".join(rng.choice("abcdxyz") for _ in range(rng.randint(1, n)))
+                s = "".join(rng.choice(ALPH[0]) for _ in range(rng.randint(1, n)))
                 if s == "self" or s in reserved or (strict and s in used):
                     continue
                 if dirty and not strict or not any(u.startswith(s) or s.startswith(u) for u in used):
@@ -272,6 +273,7 @@ def gen(rng, tier, dist):
     for _ in range(ntree):
         depth = rng.choice([1, 2, 2, 3, 3, 4])
         dirty = rng.random() < 0.15
+        ALPH[0] = "abcdxyz12" if rng.random() < 0.3 else "abcdxyz"
         tabs = gen_level_tables(rng, depth, dirty)
         t = tabs[0]
         et, ek = pc.enc_tree(t), kinds_of(t)
@@ -285,6 +287,7 @@ def gen(rng, tier, dist):
         # prints what the extracted Coq function says; macro recursion ports only)
         nok = 1 if pc.names_ok(t) and 'M' not in ek else 0
         bump(dist, "names_ok-trees", nok)
+        bump(dist, "names_ok-trees-with-literal-digits", 1 if nok and any(48 <= c <= 57 for p in flat for k, v in p['segs'] if k == 'L' for c in v) else 0)
         tables = all_tables(t)
         keys = sorted({k for _, _, k in tables})
         tab_of_key = {}
